@@ -8,6 +8,7 @@
    alternatives of RE_EXTENT_DESCRIPTOR and the two type lists of VMDK.__init__ as they are in the source. *)
 From Coq Require Import ZArith List.
 From DH Require Import Base.Plan Base.Table Model.Vmdk Model.VmdkDesc Proofs.Vmdk Proofs.VmdkDesc Proofs.Storage.
+From DH Require Import Model.Chain Proofs.Chain Model.Hdd Proofs.Hdd.
 Import ListNotations.
 Open Scope Z_scope.
 
@@ -97,6 +98,17 @@ Print Assumptions C10_storage_read_correct.
 Example C10_storage_nonvacuous :
   slaid [(0, 7); (7, 9); (9, 20)] 0 /\ s_end [(0, 7); (7, 9); (9, 20)] 0 = 20.
 Proof. exact ex_storage. Qed.
+
+(* 7. the whole .hdd disk as HDD.open() assembles it: storages laid back to back, each with its OWN chain of image
+      layers (any depth, any layer that satisfies the layer contract of C07: HDS images, a plain base).  Every byte
+      comes from the topmost layer of the chain of the storage that holds its sector, at the storage-relative
+      offset, and is zero when no layer of that chain has it — whatever the neighbouring storages hold. *)
+Theorem C10_hdd_read_correct :
+  forall hs s0 sector count,
+  hdd_ok hs -> slaid (ss_of hs) s0 -> s0 <= sector -> 0 <= count -> sector + count <= s_end (ss_of hs) s0 ->
+  hdd_read hs (sector * 512) (count * 512) = Ok (map (hdd_src hs 0) (zseq (sector * 512) (count * 512))).
+Proof. exact hdd_read_correct. Qed.
+Print Assumptions C10_hdd_read_correct.
 
 (* non-vacuity and the pinned grammar cases (13 cases of tests/test_vmdk.py) as evaluated examples *)
 Example C10_nonvacuous :
